@@ -5,7 +5,8 @@ ls -d [A-Z]*/ | sed 's|/||' | xargs -P ${1:-8} -I{} bash -c '
   d={}; m=/verif/seeded/$d/meta.json
   run=$(python3 -c "import json,re;m=json.load(open(\"$m\"));c=m.get(\"demo_run_cmd\",\"\");r=re.search(r\"-run[ =]+[\\x27\\\"]?([^ \\x27\\\"]+)\",c);print(r.group(1) if r else \".\")")
   race=$(python3 -c "import json;m=json.load(open(\"$m\"));print(1 if \"-race\" in m.get(\"demo_run_cmd\",\"\") else \"\")")
-  SEED_RACE=$race SEED_RUN="$run" /verif/tools/seedcheck.sh /verif/seeded/$d all > '$out'/$d.txt 2>&1
+  tags=$(python3 -c "import json,re;m=json.load(open(\"$m\"));c=m.get(\"demo_run_cmd\",\"\");r=re.search(r\"-tags[ =]+([^ ]+)\",c);print(r.group(1) if r else \"\")")
+  SEED_TAGS=$tags SEED_RACE=$race SEED_RUN="$run" /verif/tools/seedcheck.sh /verif/seeded/$d all > '$out'/$d.txt 2>&1
   wo=$(grep -o "demo\[without\] exit=[0-9]*" '$out'/$d.txt | grep -o "[0-9]*$"); wi=$(grep -o "demo\[with\] exit=[0-9]*" '$out'/$d.txt | grep -o "[0-9]*$")
   sf=$(grep -c "^suite: FAIL\|^suite: ---\|PATCH DOES NOT APPLY" '$out'/$d.txt); fired=$(grep -c "failing=[1-9]" '$out'/$d.txt)
   st=OK; [ "$wo" = 0 ] && [ "$wi" != 0 ] && [ -n "$wi" ] && [ "$sf" = 0 ] && [ "$fired" -gt 0 ] || st=PROBLEM
